@@ -3,6 +3,7 @@ package props
 import (
 	"bytes"
 	"crypto/sha256"
+	"encoding/binary"
 	"encoding/hex"
 	"fmt"
 	"io"
@@ -14,6 +15,7 @@ import (
 
 	"github.com/google/uuid"
 	"github.com/parquet-go/parquet-go"
+	"github.com/parquet-go/parquet-go/deprecated"
 	"github.com/parquet-go/parquet-go/encoding/thrift"
 	"github.com/parquet-go/parquet-go/format"
 
@@ -28,38 +30,40 @@ func init() {
 // c05Row is the typed struct every generated file is written from: one required and one optional
 // column per column order. PageBufferSize(1) makes every Write call its own page in every column.
 type c05Row struct {
-	I32   int32      `parquet:"i32"`
-	OI32  *int32     `parquet:"oi32,optional"`
-	I64   int64      `parquet:"i64"`
-	OI64  *int64     `parquet:"oi64,optional"`
-	U32   uint32     `parquet:"u32"`
-	OU32  *uint32    `parquet:"ou32,optional"`
-	U64   uint64     `parquet:"u64"`
-	OU64  *uint64    `parquet:"ou64,optional"`
-	F32   float32    `parquet:"f32"`
-	OF32  *float32   `parquet:"of32,optional"`
-	F64   float64    `parquet:"f64"`
-	OF64  *float64   `parquet:"of64,optional"`
-	S     string     `parquet:"s"`
-	OS    *string    `parquet:"os,optional"`
-	B     []byte     `parquet:"b"`
-	OB    []byte     `parquet:"ob,optional"`
-	FL    [5]byte    `parquet:"fl"`
-	OFL   *[5]byte   `parquet:"ofl,optional"`
-	FL20  [20]byte   `parquet:"fl20"`
-	OFL20 *[20]byte  `parquet:"ofl20,optional"`
-	BE    [16]byte   `parquet:"be"`
-	OBE   *[16]byte  `parquet:"obe,optional"`
-	UU    [16]byte   `parquet:"uu,uuid"`
-	OUU   *uuid.UUID `parquet:"ouu,optional"`
-	D32   int32      `parquet:"d32,decimal(2:9)"`
-	OD32  *int32     `parquet:"od32,optional,decimal(2:9)"`
-	D64   int64      `parquet:"d64,decimal(2:18)"`
-	OD64  *int64     `parquet:"od64,optional,decimal(2:18)"`
-	DFL   [9]byte    `parquet:"dfl,decimal(2:20)"`
-	ODFL  *[9]byte   `parquet:"odfl,optional,decimal(2:20)"`
-	BO    bool       `parquet:"bo"`
-	OBO   *bool      `parquet:"obo,optional"`
+	I32   int32             `parquet:"i32"`
+	OI32  *int32            `parquet:"oi32,optional"`
+	I64   int64             `parquet:"i64"`
+	OI64  *int64            `parquet:"oi64,optional"`
+	U32   uint32            `parquet:"u32"`
+	OU32  *uint32           `parquet:"ou32,optional"`
+	U64   uint64            `parquet:"u64"`
+	OU64  *uint64           `parquet:"ou64,optional"`
+	F32   float32           `parquet:"f32"`
+	OF32  *float32          `parquet:"of32,optional"`
+	F64   float64           `parquet:"f64"`
+	OF64  *float64          `parquet:"of64,optional"`
+	S     string            `parquet:"s"`
+	OS    *string           `parquet:"os,optional"`
+	B     []byte            `parquet:"b"`
+	OB    []byte            `parquet:"ob,optional"`
+	FL    [5]byte           `parquet:"fl"`
+	OFL   *[5]byte          `parquet:"ofl,optional"`
+	FL20  [20]byte          `parquet:"fl20"`
+	OFL20 *[20]byte         `parquet:"ofl20,optional"`
+	BE    [16]byte          `parquet:"be"`
+	OBE   *[16]byte         `parquet:"obe,optional"`
+	UU    [16]byte          `parquet:"uu,uuid"`
+	OUU   *uuid.UUID        `parquet:"ouu,optional"`
+	D32   int32             `parquet:"d32,decimal(2:9)"`
+	OD32  *int32            `parquet:"od32,optional,decimal(2:9)"`
+	D64   int64             `parquet:"d64,decimal(2:18)"`
+	OD64  *int64            `parquet:"od64,optional,decimal(2:18)"`
+	DFL   [9]byte           `parquet:"dfl,decimal(2:20)"`
+	ODFL  *[9]byte          `parquet:"odfl,optional,decimal(2:20)"`
+	BO    bool              `parquet:"bo"`
+	OBO   *bool             `parquet:"obo,optional"`
+	I96   deprecated.Int96  `parquet:"i96"`
+	OI96  *deprecated.Int96 `parquet:"oi96,optional"`
 }
 
 type c05Col struct {
@@ -181,6 +185,19 @@ var c05Cols = []c05Col{
 			r.OBO = &x
 		}
 	}},
+	{"i96", "int96", false, func(r *c05Row, v *c05Val) {
+		for i := range r.I96 {
+			r.I96[i] = binary.LittleEndian.Uint32(v.b[4*i:])
+		}
+	}},
+	{"oi96", "int96", true, func(r *c05Row, v *c05Val) {
+		if v != nil {
+			r.OI96 = new(deprecated.Int96)
+			for i := range r.OI96 {
+				r.OI96[i] = binary.LittleEndian.Uint32(v.b[4*i:])
+			}
+		}
+	}},
 }
 
 // one generated file: cells[col][page] = the values of that page (nil entry = null)
@@ -190,9 +207,11 @@ type c05File struct {
 	version int
 	rows    []int // rows per page (= per Write call)
 	cells   [][][]*c05Val
-	only    string // replay: check this column only
-	maxRows int    // MaxRowsPerRowGroup (0 = one row group)
-	multi   bool   // set while checking: the file has several row groups
+	only    string          // replay: check this column only
+	maxRows int             // MaxRowsPerRowGroup (0 = one row group)
+	multi   bool            // set while checking: the file has several row groups
+	skip    map[string]bool // columns written with SkipPageBounds
+	copyToo bool            // also copy the file with WriteRowGroup and check the copy
 }
 
 func (f *c05File) colText(ci int) string {
@@ -241,6 +260,13 @@ func c05GenFile(r *rand.Rand, id string) *c05File {
 		}
 		f.maxRows = 1 + r.Intn(max(1, total/2))
 	}
+	f.skip = map[string]bool{}
+	if r.Intn(6) == 0 {
+		for i := 0; i < 1+r.Intn(3); i++ {
+			f.skip[c05Cols[r.Intn(len(c05Cols))].name] = true
+		}
+	}
+	f.copyToo = r.Intn(5) == 0
 	f.cells = make([][][]*c05Val, len(c05Cols))
 	for ci, col := range c05Cols {
 		k := c05KindByName(col.kind)
@@ -375,20 +401,32 @@ func c05ReplayFile(ctx *core.Ctx) *c05File {
 	return f
 }
 
+func (f *c05File) options() []parquet.WriterOption {
+	lim := f.lim
+	opts := []parquet.WriterOption{
+		parquet.PageBufferSize(1),
+		parquet.ColumnIndexSizeLimit(func([]string) int { return lim }),
+		parquet.DataPageStatistics(true),
+		parquet.DataPageVersion(f.version),
+	}
+	if f.maxRows > 0 {
+		opts = append(opts, parquet.MaxRowsPerRowGroup(int64(f.maxRows)))
+	}
+	var names []string
+	for n := range f.skip {
+		names = append(names, n)
+	}
+	sort.Strings(names)
+	for _, n := range names {
+		opts = append(opts, parquet.SkipPageBounds(n))
+	}
+	return opts
+}
+
 func (f *c05File) write() (data []byte, pan any) {
 	var buf bytes.Buffer
 	pan = c05Recover(func() {
-		lim := f.lim
-		opts := []parquet.WriterOption{
-			parquet.PageBufferSize(1),
-			parquet.ColumnIndexSizeLimit(func([]string) int { return lim }),
-			parquet.DataPageStatistics(true),
-			parquet.DataPageVersion(f.version),
-		}
-		if f.maxRows > 0 {
-			opts = append(opts, parquet.MaxRowsPerRowGroup(int64(f.maxRows)))
-		}
-		w := parquet.NewGenericWriter[c05Row](&buf, opts...)
+		w := parquet.NewGenericWriter[c05Row](&buf, f.options()...)
 		for p, n := range f.rows {
 			rows := make([]c05Row, n)
 			for ci, col := range c05Cols {
@@ -405,6 +443,30 @@ func (f *c05File) write() (data []byte, pan any) {
 		}
 	})
 	return buf.Bytes(), pan
+}
+
+// copy writes the row groups of a written file into a new file with WriteRowGroup (same options: the
+// verbatim copy path is taken when the writer finds the chunks copyable, else they are re-encoded).
+func (f *c05File) copy(data []byte) (out []byte, copied int64, pan any) {
+	var buf bytes.Buffer
+	pan = c05Recover(func() {
+		src, err := parquet.OpenFile(bytes.NewReader(data), int64(len(data)))
+		if err != nil {
+			panic(err)
+		}
+		before := parquet.VerifCopyPathCount()
+		w := parquet.NewGenericWriter[c05Row](&buf, f.options()...)
+		for _, rg := range src.RowGroups() {
+			if _, err := w.WriteRowGroup(rg); err != nil {
+				panic(err)
+			}
+		}
+		if err := w.Close(); err != nil {
+			panic(err)
+		}
+		copied = parquet.VerifCopyPathCount() - before
+	})
+	return buf.Bytes(), copied, pan
 }
 
 // what the page reader returns for one page
@@ -489,7 +551,7 @@ func runStatsFiles(ctx *core.Ctx, c05 bool) {
 		b.flush()
 		return
 	}
-	nfiles := ctx.Scale(3200, 64000)
+	nfiles := ctx.Scale(2800, 64000)
 	workers := 8
 	var wg sync.WaitGroup
 	for w := 0; w < workers; w++ {
@@ -504,6 +566,9 @@ func runStatsFiles(ctx *core.Ctx, c05 bool) {
 			if c05 {
 				for i := w; i < ctx.Scale(2, 16); i += workers {
 					c05BigFile(ctx, b, i)
+				}
+				for i := w; i < ctx.Scale(300, 8000); i += workers {
+					c05HistFile(ctx, b, fmt.Sprintf("statshist#%d", i))
 				}
 			}
 			for i := 0; i < nfiles/workers; i++ {
@@ -531,12 +596,44 @@ func c05CheckFile(ctx *core.Ctx, b *c05Batch, f *c05File, c05 bool, sample bool)
 		ctx.Sample(map[string]any{"file": f.id, "limit": f.lim, "version": f.version, "rows_per_page": f.rows,
 			"oi32": f.colText(1), "os": f.colText(13)})
 	}
-	base := map[string]any{"file": f.id, "limit": f.lim, "page_version": f.version, "rows_per_page": f.rows, "max_rows_per_row_group": f.maxRows}
+	var skipped []string
+	for n := range f.skip {
+		skipped = append(skipped, n)
+	}
+	sort.Strings(skipped)
+	if len(skipped) > 0 {
+		ctx.Hist("file-skip-page-bounds", fmt.Sprint(len(skipped)))
+	}
+	base := map[string]any{"file": f.id, "limit": f.lim, "page_version": f.version, "rows_per_page": f.rows, "max_rows_per_row_group": f.maxRows, "skip_page_bounds": skipped}
 	data, pan := f.write()
 	if pan != nil {
 		ctx.Fail("L1", "writer-panic", fmt.Sprint(pan), base)
 		return
 	}
+	c05CheckData(ctx, b, f, data, c05, base)
+	if c05 && f.copyToo && f.only == "" {
+		// statistics copied by the verbatim row-group copy path must still describe the copied pages
+		cp, copied, pan := f.copy(data)
+		cbase := map[string]any{"copied_with_WriteRowGroup": true, "chunks_copied_verbatim": copied}
+		for k, v := range base {
+			cbase[k] = v
+		}
+		if pan != nil {
+			ctx.Fail("L1", "copy-row-group-failed", fmt.Sprint(pan), cbase)
+			return
+		}
+		ctx.Case(canon+" copied", len(f.rows) >= 2)
+		if copied > 0 {
+			ctx.Hist("copied-file", "verbatim-chunks")
+		} else {
+			ctx.Hist("copied-file", "re-encoded")
+		}
+		c05CheckData(ctx, b, f, cp, c05, cbase)
+	}
+}
+
+// c05CheckData checks one file image (as written, or as copied) against the values read back from it.
+func c05CheckData(ctx *core.Ctx, b *c05Batch, f *c05File, data []byte, c05 bool, base map[string]any) {
 	var pf *parquet.File
 	if p := c05Recover(func() {
 		var err error
@@ -851,7 +948,11 @@ func c05CheckChunk(ctx *core.Ctx, b *c05Batch, k *c05Kind, col c05Col, f *c05Fil
 	ctx.HistN("pages", "with-values", int64(len(pages)-nullPages-nanPages))
 
 	// ---- raw thrift lists
-	if raw != nil {
+	skipped := f.skip[col.name]
+	if skipped {
+		ctx.Hist("chunk-skip-page-bounds", col.kind)
+	}
+	if raw != nil && !(skipped && len(raw.NullPages) == 0) {
 		if len(raw.NullPages) != len(pages) || len(raw.MinValues) != len(raw.NullPages) || len(raw.MaxValues) != len(raw.NullPages) {
 			d := detail(map[string]any{"null_pages": len(raw.NullPages), "min_values": len(raw.MinValues), "max_values": len(raw.MaxValues), "num_pages": len(pages)})
 			if k.short && nullPages > 0 && len(raw.NullPages) == len(pages) {
@@ -864,8 +965,15 @@ func c05CheckChunk(ctx *core.Ctx, b *c05Batch, k *c05Kind, col c05Col, f *c05Fil
 	// ---- column index through the reader API
 	ci, err := cc.ColumnIndex()
 	if err != nil {
-		ctx.Fail("L1", "column-index-missing "+col.kind, err.Error(), detail(nil))
+		// SkipPageBounds: the writer has no bounds to put into a column index, so it must write none
+		// (a column index cannot say "unknown"); any index that IS present is judged like every other
+		if !skipped {
+			ctx.Fail("L1", "column-index-missing "+col.kind, err.Error(), detail(nil))
+		}
 	} else {
+		if skipped {
+			ctx.Hist("skip-page-bounds-index", "present")
+		}
 		v := c05ViewIndex(k, ci)
 		switch {
 		case v.panicked != nil:
@@ -899,9 +1007,12 @@ func c05CheckChunk(ctx *core.Ctx, b *c05Batch, k *c05Kind, col c05Col, f *c05Fil
 					continue
 				}
 				if key, what := c05BoundsOracle(k, p.vals, v.min[i], v.max[i], true, false); key != "" {
-					if key == "max-below-value" && k.isBytes() && c05TruncAllFF(p.vals, f.lim) {
+					switch {
+					case skipped:
+						ctx.Fail("L1", "skip-page-bounds-zero-index", "a column written with SkipPageBounds has a column index whose min/max (the zero value, null_pages=false) do not bound the page: readers pruning by it skip pages that hold matching values", d())
+					case key == "max-below-value" && k.isBytes() && c05TruncAllFF(p.vals, f.lim):
 						ctx.Fail("L1", "truncmax-all-ff-prefix", "column index max is smaller than a value of the page: the max was truncated to a prefix of all 0xFF bytes", d())
-					} else {
+					default:
 						ctx.Fail("L1", c05BoundKey("index-", key, col.kind), "column index: "+what, d())
 					}
 				}
@@ -1003,6 +1114,10 @@ func c05CheckChunk(ctx *core.Ctx, b *c05Batch, k *c05Kind, col c05Col, f *c05Fil
 		ctx.Fail("L1", "chunk-num-values-wrong "+col.kind, fmt.Sprintf("num_values=%d, %d values read", md.NumValues, total), detail(nil))
 	}
 	s, ok := c05DecodeStats(k, &md.Statistics, len(all) > 0)
+	if skipped && len(md.Statistics.MinValue) == 0 && len(md.Statistics.MaxValue) == 0 {
+		// SkipPageBounds: no chunk min/max (for BYTE_ARRAY an absent bound is not the empty string here)
+		s, ok = c05Stats{nulls: md.Statistics.NullCount}, true
+	}
 	d := func() map[string]any {
 		return detail(map[string]any{"chunk_min": k.text(s.min), "chunk_max": k.text(s.max), "chunk_has": s.has, "chunk_nulls": s.nulls})
 	}
@@ -1020,11 +1135,11 @@ func c05CheckChunk(ctx *core.Ctx, b *c05Batch, k *c05Kind, col c05Col, f *c05Fil
 			ctx.Fail("L1", c05BoundKey("chunk-stats-", key, col.kind), "chunk statistics: "+what, d())
 		}
 	}
-	if len(all) > 0 && !s.has {
+	if len(all) > 0 && !s.has && !skipped {
 		ctx.Fail("L1", "chunk-stats-missing "+col.kind, "the chunk has values but no min/max", d())
 	}
 	// L2: the chunk fold of recordPageStats over the exact page bounds
-	if k.drv != "" && pageBounds != nil && len(pageBounds) == len(pages) {
+	if k.drv != "" && pageBounds != nil && len(pageBounds) == len(pages) && !skipped {
 		got := "ok none"
 		if s.has {
 			got = "ok " + k.text(s.min) + " " + k.text(s.max)
@@ -1055,7 +1170,9 @@ func c06CheckChunk(ctx *core.Ctx, k *c05Kind, col c05Col, f *c05File, cc parquet
 	ctx.Hist("chunk-kind", col.kind)
 	ci, err := cc.ColumnIndex()
 	if err != nil {
-		ctx.Fail("L1", "column-index-missing "+col.kind, err.Error(), detail(nil))
+		if !f.skip[col.name] { // SkipPageBounds columns have no column index to search
+			ctx.Fail("L1", "column-index-missing "+col.kind, err.Error(), detail(nil))
+		}
 		return
 	}
 	typ := cc.Type()
@@ -1126,6 +1243,8 @@ func c06CheckChunk(ctx *core.Ctx, k *c05Kind, col c05Col, f *c05File, cc parquet
 		}
 		cause := ""
 		switch {
+		case f.skip[col.name]:
+			cause = " skip-page-bounds-zero-index"
 		case short:
 			cause = " flba-null-page-index-short"
 		case hasNaNPage:
